@@ -96,6 +96,23 @@ func claimsReadOps(c psatoken.IClaims) []readOp {
 			readOp{"SwComponents.IsEmpty", func() string { return fmt.Sprint(sc.IsEmpty()) }},
 		)
 	}
+	// the exported component validator applied to the components the claims-set
+	// itself holds (the pointers its getter hands out)
+	ops = append(ops, readOp{"ValidateSwComponent(each returned component)", func() string {
+		scs, err := c.GetSoftwareComponents()
+		if err != nil {
+			return errClass(err)
+		}
+		var r []string
+		for _, x := range scs {
+			if x == nil || reflect.ValueOf(x).IsNil() {
+				r = append(r, "nil")
+				continue
+			}
+			r = append(r, errClass(psatoken.ValidateSwComponent(x)), errClass(x.Validate()))
+		}
+		return strings.Join(r, ",")
+	}})
 	return ops
 }
 
